@@ -1,3 +1,7 @@
 import Spade.Proofs.LinkInv.Base
 import Spade.Proofs.LinkInv.Flip
 import Spade.Proofs.LinkInv.Triangle
+import Spade.Proofs.LinkInv.SplitEdge
+import Spade.Proofs.LinkInv.SplitHalfEdge
+import Spade.Proofs.LinkInv.CreateFace
+import Spade.Proofs.LinkInv.SingleFace
